@@ -2,13 +2,20 @@ package serverinterceptors
 
 // C09 (integration) — UnarySheddingInterceptor: every request the shedder
 // admitted reports Pass or Fail exactly once (also when the handler panics or
-// fails), a rejected request never reaches the handler and never reports.
+// fails), a rejected request never reaches the handler and never reports. The
+// shape of the call is generated as well (full method name incl. health /
+// reflection / streaming-looking names, incoming metadata, context with a
+// deadline, already cancelled or already expired); the oracle does not depend
+// on it. (Only a unary shedding interceptor exists in the package.)
 
 import (
 	"context"
 	"errors"
 	"fmt"
 	"testing"
+	"time"
+
+	"google.golang.org/grpc/metadata"
 
 	"github.com/gotid/god/lib/load"
 	"github.com/gotid/god/lib/logx"
@@ -23,8 +30,27 @@ var c09Metrics = stat.NewMetrics("c09-verif-rpc")
 func init() { logx.Disable() }
 
 type c09iReq struct {
-	Admit bool   `json:"a"`
-	Beh   string `json:"b"` // ok | deadline | error | panic
+	Admit  bool        `json:"a"`
+	Beh    string      `json:"b"` // ok | deadline | error | panic | canceled
+	Method string      `json:"m,omitempty"`
+	Ctx    string      `json:"c,omitempty"` // bg | deadline | canceled | expired
+	Md     [][2]string `json:"md,omitempty"`
+}
+
+var c09iMdPool = [][]string{
+	{"upgrade", "websocket"},
+	{"connection", "upgrade"},
+	{"content-type", "application/grpc", "application/grpc+json", "application/grpc-web"},
+	{"grpc-timeout", "1S", "0n"},
+	{"te", "trailers"},
+	{"x-priority", "high", "low"},
+	{"authorization", "Bearer x"},
+	{"app", "c09"},
+	{"token", "t"},
+	{"x-health-check", "1"},
+	{"traceparent", "00-4bf92f3577b34da6a3ce929d0e0e4736-00f067aa0ba902b7-01"},
+	{"x-debug", "1"},
+	{"grpc-accept-encoding", "gzip"},
 }
 
 type c09iCase struct {
@@ -59,15 +85,38 @@ func c09iInterp(c c09iCase) (v kit.Verdict) {
 		sh.admit, sh.last, sh.calls = rq.Admit, nil, 0
 		calls := 0
 		var err error
+		ctx, cancel := context.Background(), context.CancelFunc(func() {})
+		switch rq.Ctx {
+		case "deadline":
+			ctx, cancel = context.WithTimeout(ctx, time.Hour)
+		case "canceled":
+			ctx, cancel = context.WithCancel(ctx)
+			cancel()
+		case "expired":
+			ctx, cancel = context.WithDeadline(ctx, time.Unix(1, 0))
+		}
+		if len(rq.Md) > 0 {
+			md := metadata.MD{}
+			for _, kv := range rq.Md {
+				md.Append(kv[0], kv[1])
+			}
+			ctx = metadata.NewIncomingContext(ctx, md)
+		}
+		method := rq.Method
+		if method == "" {
+			method = "/c09"
+		}
 		panicked := func() (p bool) {
 			defer func() {
 				if r := recover(); r != nil {
 					p = true
 				}
 			}()
-			_, err = icpt(context.Background(), nil, &grpc.UnaryServerInfo{FullMethod: "/c09"}, func(ctx context.Context, req interface{}) (interface{}, error) {
+			_, err = icpt(ctx, nil, &grpc.UnaryServerInfo{FullMethod: method}, func(ctx context.Context, req interface{}) (interface{}, error) {
 				calls++
 				switch rq.Beh {
+				case "canceled":
+					return nil, context.Canceled
 				case "deadline":
 					return nil, context.DeadlineExceeded
 				case "error":
@@ -79,6 +128,7 @@ func c09iInterp(c c09iCase) (v kit.Verdict) {
 			})
 			return false
 		}()
+		cancel()
 		what := fmt.Sprintf("request %d %+v", i, rq)
 		if sh.calls != 1 {
 			return v.Failf("%s: Allow called %d times", what, sh.calls)
@@ -110,15 +160,22 @@ func c09iInterp(c c09iCase) (v kit.Verdict) {
 }
 
 func TestVerif_C09_shedding_interceptor(t *testing.T) {
-	kit.Run(t, "C09", "interceptor-reports-once", kit.Opts{Quick: 300, Thorough: 4800},
+	kit.Run(t, "C09", "interceptor-reports-once", kit.Opts{Quick: 1000, Thorough: 16000},
 		func(rt *rapid.T) c09iCase {
 			var c c09iCase
 			n := rapid.IntRange(1, 12).Draw(rt, "n")
 			for i := 0; i < n; i++ {
-				c.Reqs = append(c.Reqs, c09iReq{
-					Admit: rapid.IntRange(0, 3).Draw(rt, "a") > 0,
-					Beh:   rapid.SampledFrom([]string{"ok", "deadline", "error", "panic"}).Draw(rt, "b"),
-				})
+				rq := c09iReq{
+					Admit:  rapid.IntRange(0, 3).Draw(rt, "a") > 0,
+					Beh:    rapid.SampledFrom([]string{"ok", "deadline", "error", "panic", "canceled"}).Draw(rt, "b"),
+					Method: rapid.SampledFrom([]string{"/c09", "/grpc.health.v1.Health/Check", "/grpc.health.v1.Health/Watch", "/grpc.reflection.v1alpha.ServerReflection/ServerReflectionInfo", "/svc.Stream/Subscribe", "", "/a/b"}).Draw(rt, "m"),
+					Ctx:    rapid.SampledFrom([]string{"bg", "bg", "deadline", "canceled", "expired"}).Draw(rt, "c"),
+				}
+				for k := rapid.IntRange(0, 3).Draw(rt, "nmd"); k > 0; k-- {
+					h := rapid.SampledFrom(c09iMdPool).Draw(rt, "md")
+					rq.Md = append(rq.Md, [2]string{h[0], rapid.SampledFrom(h[1:]).Draw(rt, "mdv")})
+				}
+				c.Reqs = append(c.Reqs, rq)
 			}
 			return c
 		}, c09iInterp)
